@@ -23,7 +23,7 @@ fn render_on(sess: &jr::Session, code: &str, max_stack: usize) -> String {
 	let state = sess.state.clone();
 	let r = guarded(|| {
 		let _e = state.enter();
-		let _l = limit_stack_depth(max_stack);
+		let _l = (max_stack > 0).then(|| limit_stack_depth(max_stack));
 		let fmt = CompactFormat { resolver: PathResolver::FileName, max_trace: 20, padding: 4 };
 		match state.evaluate_snippet("prog.jsonnet", code).and_then(|v| v.manifest(JsonFormat::default())) {
 			Ok(s) => format!("VALUE\n{s}"),
@@ -36,9 +36,10 @@ fn render_on(sess: &jr::Session, code: &str, max_stack: usize) -> String {
 		Err(p) => format!("PANIC {p}"),
 	}
 }
-fn render(code: &str) -> String {
+/// `max_stack` 0 = the thread's own default limit (200 frames counted from depth zero, as a one-shot run has it)
+fn render(code: &str, max_stack: usize) -> String {
 	let sess = jr::new_session(&Opts::default());
-	render_on(&sess, code, 200)
+	render_on(&sess, code, max_stack)
 }
 
 const HISTORY: &[&str] = &[
@@ -222,7 +223,10 @@ pub fn check(src: &mut Src, with_cli: bool) -> CaseOut {
 	let mut problems = vec![];
 	let started = std::time::Instant::now();
 	let c0 = code.clone();
-	let base = on_fresh_thread(0, 0, move || render(&c0));
+	// programs just below the frame limit run under the thread's default limit: a frame leaked by an earlier
+	// stack-limit hit is invisible to a limit that is set relative to the current depth
+	let ms = if classes.iter().any(|c| c == "near-limit") { 0 } else { 200 };
+	let base = on_fresh_thread(0, 0, move || render(&c0, ms));
 	let mut cmp = |label: &str, got: String| {
 		if got != base {
 			problems.push(format!("{label} differs from the fresh-thread result\n--- fresh thread:\n{base}\n--- {label}:\n{got}"));
@@ -230,7 +234,7 @@ pub fn check(src: &mut Src, with_cli: bool) -> CaseOut {
 	};
 	// (2) different heap layout / interned pool
 	let c = code.clone();
-	cmp(&format!("thread with {junk} pre-interned strings and a {leak}-byte leaked prefix"), on_fresh_thread(junk, leak, move || render(&c)));
+	cmp(&format!("thread with {junk} pre-interned strings and a {leak}-byte leaked prefix"), on_fresh_thread(junk, leak, move || render(&c, ms)));
 	// (4) after a history of other evaluations on the same thread (fresh state each)
 	let c = code.clone();
 	let h = hist.clone();
@@ -238,9 +242,9 @@ pub fn check(src: &mut Src, with_cli: bool) -> CaseOut {
 		"after a history of other evaluations (fresh states)",
 		on_fresh_thread(junk / 7, 0, move || {
 			for p in &h {
-				let _ = render(p);
+				let _ = render(p, ms);
 			}
-			render(&c)
+			render(&c, ms)
 		}),
 	);
 	// (3) one long-lived state, history first, then the program twice in a row
@@ -249,10 +253,10 @@ pub fn check(src: &mut Src, with_cli: bool) -> CaseOut {
 	let twice = on_fresh_thread(3, 17, move || {
 		let sess = jr::new_session(&Opts::default());
 		for p in &h {
-			let _ = render_on(&sess, p, 200);
+			let _ = render_on(&sess, p, ms);
 		}
-		let a = render_on(&sess, &c, 200);
-		let b = render_on(&sess, &c, 200);
+		let a = render_on(&sess, &c, ms);
+		let b = render_on(&sess, &c, ms);
 		if a == b {
 			a
 		} else {
